@@ -8,9 +8,9 @@
    function that, when it succeeds, has consumed at least one token and only tokens of the kinds NAME,
    NUMBER, STRING, OPERATOR, PUNCTUATION); its own model and fuel bound belong to C08.
    Statements only; proofs in Proofs/RobustProofs.v, Proofs/BlockParserSkipProofs.v, Proofs/LexerProofs.v,
-   Proofs/CompiledProofs.v. *)
-From Twig Require Import Base.Bytes Model.Lexer Model.BlockParser Model.BlockParserShape Model.Compiled Spec.CompiledSpec
-  Gen.TokenKinds Proofs.LexerProofs Proofs.CompiledProofs Proofs.BlockParserSkipProofs Proofs.RobustProofs.
+   Proofs/DeserializeTotalProofs.v (self-contained: independent of the C16 proof development). *)
+From Twig Require Import Base.Bytes Model.Lexer Model.BlockParser Model.BlockParserShape Model.Compiled
+  Gen.TokenKinds Proofs.LexerProofs Proofs.DeserializeTotalProofs Proofs.BlockParserSkipProofs Proofs.RobustProofs.
 From Coq Require Import NArith.
 
 (* the scanner (both tokenizers) returns tokens or an error for every byte string: length + 1 steps suffice *)
@@ -19,13 +19,13 @@ Proof. exact lex_total. Qed.
 
 (* index safety of parseOuterTemplate and all block handlers: for EVERY stand-in for parseExpression
    within the stated assumption, EVERY token list whose last token is EOF (kinds, values and lines of all
-   tokens arbitrary, EOF tokens in the middle allowed), EVERY fuel and every start index inside the list,
-   the model never indexes the token list out of range.  PPanic PTokIndex is returned by the model
+   tokens arbitrary, EOF tokens in the middle allowed), EVERY fuel, every set of open block names
+   (Parser.openBlocks) and every start index inside the list, the model never indexes the token list out of range.  PPanic PTokIndex is returned by the model
    exactly at the accesses the Go code makes without a dominating bounds test. *)
 Theorem C05_block_parser_index_safe :
   forall (skip : list token -> nat -> option nat) (toks : list token),
     bp_expr_spec skip -> bp_ends_in_eof toks ->
-    forall fuel i, i <= length toks -> bp_outer skip toks fuel i <> PPanic PTokIndex.
+    forall fuel opn i, i <= length toks -> bp_outer skip toks fuel opn i <> PPanic PTokIndex.
 Proof. exact C05_block_parser_index_safe_proof. Qed.
 
 (* termination: every loop iteration of parseOuterTemplate and of every handler consumes a token or
@@ -35,8 +35,8 @@ Theorem C05_block_parser_fuel_bound :
   forall (skip : list token -> nat -> option nat) (toks : list token),
     bp_expr_spec skip -> bp_ends_in_eof toks ->
     bp_parse skip toks <> PFuel /\
-    (forall fuel i, i <= length toks -> length toks < fuel + i -> bp_outer skip toks fuel i <> PFuel) /\
-    (forall fuel i j ns, i <= length toks -> bp_outer skip toks fuel i = POk j ns -> i <= j <= length toks).
+    (forall fuel opn i, i <= length toks -> length toks < fuel + i -> bp_outer skip toks fuel opn i <> PFuel) /\
+    (forall fuel opn i j ns, i <= length toks -> bp_outer skip toks fuel opn i = POk j ns -> i <= j <= length toks).
 Proof. exact C05_block_parser_fuel_bound_proof. Qed.
 
 (* the assumption on parseExpression is inhabited: the bracket-balanced scan the correspondence driver
@@ -83,17 +83,25 @@ Theorem C05_model_tied_to_code :
 Proof. exact C05_model_tied_to_code_proof. Qed.
 
 (* decoding arbitrary bytes as a compiled template: a value or an error for every byte list and every
-   gob decoder; every byte is read through one accessor that fails exactly when fewer bytes are left
-   than asked for (re-export of the C16 development) *)
+   gob decoder; every byte is read through one accessor that fails exactly when fewer bytes are left than
+   asked for and otherwise splits the input there; and every allocation the decoder asks for (the
+   make([]byte, n) of readString and of the AST) is at most the length of the input *)
 Theorem C05_deserialize_total :
   (forall (gob : bytes -> option compiled) (data : bytes),
      deserialize_compiled gob data = None \/ exists c, deserialize_compiled gob data = Some c) /\
   (forall (l : bytes) (n : N),
      (lenN l < n -> read_exact l n = None) /\
      (n <= lenN l -> exists a r, read_exact l n = Some (a, r) /\ l = a ++ r /\ lenN a = n))%N /\
-  (forall (data : bytes) (c : compiled),
-     deserialize_binary data = Some c -> wf_compiled c /\ exists rest, data = serialize_compiled c ++ rest).
-Proof. exact C16_deserialize_total_proof. Qed.
+  (forall (data : bytes) (n : N), In n (deserialize_allocs data) -> (n <= lenN data)%N).
+Proof. exact C05_deserialize_total_proof. Qed.
+
+(* a block nested in a block of the same name is a parse error (the repair of the unbounded render recursion) *)
+Example C05_example_nested_block :
+  bp_parse_std [mkTok KBlockStart [] 1; mkTok KName b#"block" 1; mkTok KName b#"a" 1; mkTok KBlockEnd [] 1;
+                mkTok KBlockStart [] 1; mkTok KName b#"block" 1; mkTok KName b#"a" 1; mkTok KBlockEnd [] 1;
+                mkTok KBlockStart [] 1; mkTok KName b#"endblock" 1; mkTok KBlockEnd [] 1;
+                mkTok KBlockStart [] 1; mkTok KName b#"endblock" 1; mkTok KBlockEnd [] 1; mkTok KEof [] 1] = PErr.
+Proof. vm_compute. reflexivity. Qed.
 
 (* non-vacuity: a well-formed template is accepted with the expected tree; a stray end tag at top level
    stops the parse without an error (what Parser.Parse then does with the rest is not a C05 matter) *)
